@@ -70,6 +70,46 @@ example :
     maxFrameSize = 16383 ∧ Consts.MSS_MAX_LEN_BYTES = 2 := by
   refine ⟨by simp [wire, frameBytes, uviEncode_lt], by decide, by decide, by decide, by decide⟩
 
+/-- **Framing makes progress.** The liveness complement of `framing_transparent`. The carrier
+"eventually delivers every byte": the schedule contains at least as many non-`Pending` choices (each
+delivers at least one byte) as the frames have bytes on the wire, `Pending`s interleaved at will;
+the reader polls again after every `Pending` (`fuel` at least the length of the schedule). Then
+every frame is returned, the reader is back in its initial state and exactly `rest` is left.
+The measure behind it (`pollNext_mid_budget`): the number of frame bytes still in flight — every
+non-`Pending` inner `poll_read` decreases it, a `Pending` leaves it unchanged, and while it is
+positive the reader is inside a frame (`Mid`) and cannot fail. -/
+theorem framing_progress (fs : List Bytes) (hfs : ∀ f ∈ fs, f.length ≤ maxFrameSize) (rest : Bytes)
+    (eof : Bool) (fuel : Nat) (sched : List Nat) (hfuel : sched.length ≤ fuel)
+    (hdeliver : (wire fs).length ≤ (sched.filter (· ≠ 0)).length) :
+    (readN fs.length fuel Reader.fresh ⟨wire fs ++ rest, eof⟩ sched).1 = fs.map PollNext.frame ∧
+    (readN fs.length fuel Reader.fresh ⟨wire fs ++ rest, eof⟩ sched).2.1 = Reader.fresh ∧
+    (readN fs.length fuel Reader.fresh ⟨wire fs ++ rest, eof⟩ sched).2.2.1 = ⟨rest, eof⟩ := by
+  have hout : (readN fs.length fuel Reader.fresh ⟨wire fs ++ rest, eof⟩ sched).1 = fs.map PollNext.frame := by
+    cases fs with
+    | nil => simp [readN]
+    | cons f fs =>
+      have hlen : ∀ g ∈ f :: fs, g.length < 16384 := by
+        intro g hg; have := hfs g hg; rw [maxFrameSize_eq] at this; omega
+      exact readN_progress rest fuel f fs Reader.fresh ⟨wire (f :: fs) ++ rest, eof⟩ sched hlen
+        (by rw [wire_cons, List.append_assoc]; exact mid_fresh _ _ _) hfuel
+        (by simp only [List.length_append, nz] at hdeliver ⊢; omega)
+  obtain ⟨k, hk, hpre, hfin⟩ := framing_transparent fs hfs rest eof fuel sched
+  have hkl : k = fs.length := by
+    have := congrArg List.length (hpre.symm.trans hout)
+    simp at this; omega
+  exact ⟨hout, hfin hkl⟩
+
+/-- Non-vacuity: the 5 bytes of two frames, six `Pending`s and five 1-byte deliveries. With one
+delivery fewer the second frame is not returned (the bound is tight). -/
+example :
+    (wire [[1, 2, 3], []]).length = 5 ∧ ([1, 0, 1, 0, 0, 1, 0, 0, 1, 0, 1].filter (· ≠ 0)).length = 5 ∧
+    (readN 2 11 Reader.fresh ⟨wire [[1, 2, 3], []] ++ [9, 9], false⟩ [1, 0, 1, 0, 0, 1, 0, 0, 1, 0, 1]).1 =
+      [.frame [1, 2, 3], .frame []] ∧
+    (readN 2 11 Reader.fresh ⟨wire [[1, 2, 3], []] ++ [9, 9], false⟩ [1, 0, 1, 0, 0, 1, 0, 0, 1, 0]).1 =
+      [.frame [1, 2, 3]] := by
+  refine ⟨by simp [wire, frameBytes, uviEncode_lt], by decide, ?_, ?_⟩ <;>
+    (rw [show wire [[1, 2, 3], []] = [3, 1, 2, 3, 0] by simp [wire, frameBytes, uviEncode_lt]]; decide)
+
 /-- **The writer loses nothing.** For every schedule, the bytes on the wire followed by the bytes
 still buffered are the bytes before followed by the buffer before; `Ready` means the buffer is
 empty (the assertion of `into_inner` on the write buffer holds after a flush). -/
@@ -287,6 +327,8 @@ open Litep2pVerif.Props.C03 in
 #print axioms varint_roundtrip
 open Litep2pVerif.Props.C03 in
 #print axioms framing_transparent
+open Litep2pVerif.Props.C03 in
+#print axioms framing_progress
 open Litep2pVerif.Props.C03 in
 #print axioms framing_writer_exact
 open Litep2pVerif.Props.C03 in
